@@ -14,6 +14,7 @@ Oracle: the definition  sum(c[i] * x**i).
 from __future__ import annotations
 
 import itertools
+import signal
 from fractions import Fraction as F
 
 from mc.harness import add_violation, bump, new_part, setup_repo_import
@@ -70,6 +71,14 @@ class ExactCtx:
 
     def reciprocal(self, z):
         return 1 / z
+
+
+class _Timeout(BaseException):
+    pass
+
+
+def _alarm(*a):
+    raise _Timeout()
 
 
 def _schemes(fa, which):
@@ -130,7 +139,15 @@ def judge_eval(fa, part, case):
     else:
         sig = f"{impl}:scheme={scheme}:{lenclass}"
     try:
-        got = call_eval(fa, impl, scheme, reverse, coeffs, x, m)
+        signal.signal(signal.SIGALRM, _alarm)
+        signal.setitimer(signal.ITIMER_REAL, 20.0)
+        try:
+            got = call_eval(fa, impl, scheme, reverse, coeffs, x, m)
+        finally:
+            signal.setitimer(signal.ITIMER_REAL, 0)
+    except _Timeout:
+        add_violation(part, sig + ":does-not-finish", f"{impl}(scheme={scheme}, reverse={reverse}) on {len(coeffs)} coefficients did not finish within 20 s (exact rational arithmetic; the other schemes take milliseconds)", case)
+        return False
     except Exception as e:  # the utilities must not raise on a well-formed polynomial
         add_violation(part, sig + ":raises", f"{impl} raised {type(e).__name__}: {e} on {case}", case)
         return False
